@@ -127,6 +127,32 @@ Theorem C08_basex_fault_safe : forall ops,
 Proof. exact CacheBasexProofs.fault_safe. Qed.
 Print Assumptions C08_basex_fault_safe.
 
+(* a file that changes on disk AFTER it was loaded (overwritten in place, same
+   inode and length): the memory caches of the model are private copies, so a
+   disk operation leaves them untouched; calls served from memory stay fresh
+   and calls that return to the disk are covered by C08_daun_fault_safe.  That
+   the implementation copies what it loads is what the overwrite histories of
+   tools/props/C08.py test *)
+Theorem C08_daun_disk_fault_keeps_memory : forall s d k c,
+  let s' := fst (CacheDaun.step s (CacheDaun.Seed d k c)) in
+  CacheDaun.bs s' = CacheDaun.bs s /\ CacheDaun.bs_prm s' = CacheDaun.bs_prm s /\
+  CacheDaun.tr s' = CacheDaun.tr s /\ CacheDaun.tr_prm s' = CacheDaun.tr_prm s /\
+  CacheDaun.gdir s' = CacheDaun.gdir s.
+Proof. exact CacheDaunProofs.disk_fault_keeps_memory. Qed.
+Print Assumptions C08_daun_disk_fault_keeps_memory.
+
+Example C08_daun_overwritten_after_load_fresh :
+  CacheDaun.no_hazard CacheDaun.init (CacheDaunProofs.ow_hist ++
+     [CacheDaunProofs.ow_call; CacheDaunProofs.ow_small; CacheDaun.Cleanup true; CacheDaunProofs.ow_call]) = true /\
+  CacheDaun.out_eqv (CacheDaun.last_result CacheDaunProofs.ow_hist CacheDaunProofs.ow_call)
+                    (CacheDaun.fresh CacheDaunProofs.ow_call) = true /\
+  CacheDaun.out_eqv (CacheDaun.last_result (CacheDaunProofs.ow_hist ++ [CacheDaunProofs.ow_call]) CacheDaunProofs.ow_small)
+                    (CacheDaun.fresh CacheDaunProofs.ow_small) = true /\
+  CacheDaun.out_eqv (CacheDaun.last_result (CacheDaunProofs.ow_hist ++
+                        [CacheDaunProofs.ow_call; CacheDaunProofs.ow_small; CacheDaun.Cleanup true]) CacheDaunProofs.ow_call)
+                    (CacheDaun.fresh CacheDaunProofs.ow_call) = true.
+Proof. exact CacheDaunProofs.overwritten_after_load_fresh. Qed.
+
 (* the histories of the former findings: after the damaged file made a call
    raise and was removed the next call is fresh; wrong-shape files are ignored *)
 Example C08_former_findings :
